@@ -222,57 +222,77 @@ def ow2(ctx, R):
     R.check(not muts, "object_index::never mutated", rso.where(), "path->position dictionaries shared through SegmentIndexCache are read-only",
             "an object_index dictionary (shared between all segments with the same object list) is modified in %s" % (muts[0][0].qual if muts else ""))
     # ObjectListKey.__eq__: same length and pairwise path equality in order
-    eq = prog.func("tdms_segment.ObjectListKey.__eq__")
-    src = unparse(eq.node)
-    def is_len(e):
-        return isinstance(e, ast.Call) and call_name(e) == "len"
-    has_len = any(isinstance(n, ast.Compare) and len(n.ops) == 1 and isinstance(n.ops[0], (ast.Eq, ast.NotEq)) and is_len(n.left) and is_len(n.comparators[0])
-                  for n in ast.walk(eq.node))
-    zips = [n for n in ast.walk(eq.node) if isinstance(n, ast.Call) and call_name(n) == "zip"]
-    # whole-sequence equality of two stored ordered sequences (tuple == tuple) is a length check and a pairwise comparison at once
-    whole = [n for n in ast.walk(eq.node) if isinstance(n, ast.Compare) and len(n.ops) == 1 and isinstance(n.ops[0], (ast.Eq, ast.NotEq))
-             and isinstance(n.left, ast.Attribute) and isinstance(n.comparators[0], ast.Attribute) and n.left.attr == n.comparators[0].attr
-             and dotted(n.left.value) == "self" and isinstance(n.comparators[0].value, ast.Name) and n.comparators[0].value.id in eq.params and not zips]
-    pairwise = False
-    zip_names = set()
-    for n in ast.walk(eq.node):
-        if isinstance(n, (ast.comprehension, ast.For)) and isinstance(n.iter, ast.Call) and call_name(n.iter) == "zip":
-            zip_names |= {x.id for x in ast.walk(n.target) if isinstance(x, ast.Name)}
-    for n in ast.walk(eq.node):
-        if isinstance(n, ast.Compare) and len(n.ops) == 1 and isinstance(n.ops[0], (ast.Eq, ast.NotEq)):
-            l, r_ = n.left, n.comparators[0]
-            lb = l.value if isinstance(l, ast.Attribute) else l
-            rb = r_.value if isinstance(r_, ast.Attribute) else r_
-            if isinstance(lb, ast.Name) and isinstance(rb, ast.Name) and lb.id in zip_names and rb.id in zip_names and lb.id != rb.id \
-                    and (not isinstance(l, ast.Attribute) or (isinstance(r_, ast.Attribute) and l.attr == r_.attr)):
-                pairwise = True
-    if whole:
-        has_len, zips, pairwise = True, whole, True
-    unordered = any(isinstance(n, ast.Call) and call_name(n) in ("set", "frozenset", "sorted") for n in ast.walk(eq.node)) or \
-        any(isinstance(n, (ast.Set, ast.SetComp)) for n in ast.walk(eq.node))
-    # attributes compared: if __eq__ compares stored attributes, look at how __init__ builds them
-    init = prog.func("tdms_segment.ObjectListKey.__init__")
-    for n in walk_body(init.node):
-        if isinstance(n, ast.Assign) and isinstance(n.targets[0], ast.Attribute) and n.targets[0].attr != "_hash":
-            if any(isinstance(x, ast.Call) and call_name(x) in ("set", "frozenset", "sorted") for x in ast.walk(n.value)) or \
-                    any(isinstance(x, (ast.Set, ast.SetComp)) for x in ast.walk(n.value)):
-                unordered = True
-    # all(map(operator.eq, xs, ys)) is the pairwise comparison too
-    mapped = any(isinstance(n, ast.Call) and call_name(n) == "map" and len(n.args) == 3 and (dotted(n.args[0]) or "").split(".")[-1] == "eq" for n in ast.walk(eq.node))
-    unordered = unordered or any(isinstance(x, ast.Call) and call_name(x) in ("set", "frozenset", "sorted") for x in ast.walk(eq.node)) or \
-        any(isinstance(x, (ast.Set, ast.SetComp)) for x in ast.walk(eq.node))
-    good = has_len and ((zips and pairwise) or mapped) and not unordered
-    key_ = "tdms_segment.ObjectListKey.__eq__::ordered comparison"
-    if good:
-        R.ok(key_, eq.where(), "keys are equal only for lists of equal length with pairwise equal paths in the same order")
-    elif unordered:
-        R.violation(key_, eq.where(), "cache key equality goes through an order-insensitive container (set / frozenset / sorted): segments with the same objects in a "
-                    "different order would share one path->position index")
-    elif (zips and not pairwise) or (zips and not has_len):
-        R.violation(key_, eq.where(), "cache key equality does not compare the object paths pairwise in list order (length check=%s, zip=%s, path==path=%s): "
-                    "segments with different object lists would share one path->position index" % (bool(has_len), bool(zips), pairwise))
-    else:
-        R.undecided(key_, eq.where(), "how the two object lists are compared was not recognised")
+    try:
+        eq = prog.func("tdms_segment.ObjectListKey.__eq__")
+    except AnchorMissing:
+        # no key class any more: how the cache builds its key decides
+        key_ = "tdms_segment.SegmentIndexCache::key of the shared index"
+        try:
+            gi = prog.func("tdms_segment.SegmentIndexCache.get_index")
+        except AnchorMissing:
+            R.unrecognised(key_, prog.module("tdms_segment").relpath, "neither ObjectListKey nor SegmentIndexCache.get_index found")
+            return
+        unordered_ = [n for n in ast.walk(gi.node) if (isinstance(n, ast.Call) and call_name(n) in ("set", "frozenset", "sorted")) or isinstance(n, (ast.Set, ast.SetComp))]
+        ordered_ = [n for n in ast.walk(gi.node) if isinstance(n, ast.Call) and call_name(n) == "tuple"]
+        if unordered_:
+            R.violation(key_, gi.where(unordered_[0]), "the key of the shared path->position index goes through an order-insensitive container (`%s`): segments "
+                        "with the same objects in a different order would share one index" % unparse(unordered_[0])[:60])
+        elif ordered_:
+            R.ok(key_, gi.where(ordered_[0]), "the key is the tuple of paths in list order")
+        else:
+            R.unrecognised(key_, gi.where(), "how the cache key is built from the object list was not recognised")
+        eq = None
+    if eq is not None:
+        src = unparse(eq.node)
+        def is_len(e):
+            return isinstance(e, ast.Call) and call_name(e) == "len"
+        has_len = any(isinstance(n, ast.Compare) and len(n.ops) == 1 and isinstance(n.ops[0], (ast.Eq, ast.NotEq)) and is_len(n.left) and is_len(n.comparators[0])
+                      for n in ast.walk(eq.node))
+        zips = [n for n in ast.walk(eq.node) if isinstance(n, ast.Call) and call_name(n) == "zip"]
+        # whole-sequence equality of two stored ordered sequences (tuple == tuple) is a length check and a pairwise comparison at once
+        whole = [n for n in ast.walk(eq.node) if isinstance(n, ast.Compare) and len(n.ops) == 1 and isinstance(n.ops[0], (ast.Eq, ast.NotEq))
+                 and isinstance(n.left, ast.Attribute) and isinstance(n.comparators[0], ast.Attribute) and n.left.attr == n.comparators[0].attr
+                 and dotted(n.left.value) == "self" and isinstance(n.comparators[0].value, ast.Name) and n.comparators[0].value.id in eq.params and not zips]
+        pairwise = False
+        zip_names = set()
+        for n in ast.walk(eq.node):
+            if isinstance(n, (ast.comprehension, ast.For)) and isinstance(n.iter, ast.Call) and call_name(n.iter) == "zip":
+                zip_names |= {x.id for x in ast.walk(n.target) if isinstance(x, ast.Name)}
+        for n in ast.walk(eq.node):
+            if isinstance(n, ast.Compare) and len(n.ops) == 1 and isinstance(n.ops[0], (ast.Eq, ast.NotEq)):
+                l, r_ = n.left, n.comparators[0]
+                lb = l.value if isinstance(l, ast.Attribute) else l
+                rb = r_.value if isinstance(r_, ast.Attribute) else r_
+                if isinstance(lb, ast.Name) and isinstance(rb, ast.Name) and lb.id in zip_names and rb.id in zip_names and lb.id != rb.id \
+                        and (not isinstance(l, ast.Attribute) or (isinstance(r_, ast.Attribute) and l.attr == r_.attr)):
+                    pairwise = True
+        if whole:
+            has_len, zips, pairwise = True, whole, True
+        unordered = any(isinstance(n, ast.Call) and call_name(n) in ("set", "frozenset", "sorted") for n in ast.walk(eq.node)) or \
+            any(isinstance(n, (ast.Set, ast.SetComp)) for n in ast.walk(eq.node))
+        # attributes compared: if __eq__ compares stored attributes, look at how __init__ builds them
+        init = prog.func("tdms_segment.ObjectListKey.__init__")
+        for n in walk_body(init.node):
+            if isinstance(n, ast.Assign) and isinstance(n.targets[0], ast.Attribute) and n.targets[0].attr != "_hash":
+                if any(isinstance(x, ast.Call) and call_name(x) in ("set", "frozenset", "sorted") for x in ast.walk(n.value)) or \
+                        any(isinstance(x, (ast.Set, ast.SetComp)) for x in ast.walk(n.value)):
+                    unordered = True
+        # all(map(operator.eq, xs, ys)) is the pairwise comparison too
+        mapped = any(isinstance(n, ast.Call) and call_name(n) == "map" and len(n.args) == 3 and (dotted(n.args[0]) or "").split(".")[-1] == "eq" for n in ast.walk(eq.node))
+        unordered = unordered or any(isinstance(x, ast.Call) and call_name(x) in ("set", "frozenset", "sorted") for x in ast.walk(eq.node)) or \
+            any(isinstance(x, (ast.Set, ast.SetComp)) for x in ast.walk(eq.node))
+        good = has_len and ((zips and pairwise) or mapped) and not unordered
+        key_ = "tdms_segment.ObjectListKey.__eq__::ordered comparison"
+        if good:
+            R.ok(key_, eq.where(), "keys are equal only for lists of equal length with pairwise equal paths in the same order")
+        elif unordered:
+            R.violation(key_, eq.where(), "cache key equality goes through an order-insensitive container (set / frozenset / sorted): segments with the same objects in a "
+                        "different order would share one path->position index")
+        elif (zips and not pairwise) or (zips and not has_len):
+            R.violation(key_, eq.where(), "cache key equality does not compare the object paths pairwise in list order (length check=%s, zip=%s, path==path=%s): "
+                        "segments with different object lists would share one path->position index" % (bool(has_len), bool(zips), pairwise))
+        else:
+            R.undecided(key_, eq.where(), "how the two object lists are compared was not recognised")
     # get_index builds the index by enumerate over the list it was given
     gi = prog.func("tdms_segment.SegmentIndexCache.get_index")
     enums = [n for n in ast.walk(gi.node) if isinstance(n, ast.Call) and call_name(n) == "enumerate" and n.args]
@@ -801,6 +821,43 @@ def pv1(ctx, R):
 
 # ---------------------------------------------------------------------------
 # OW3 scaling purity (C13)
+
+@rule("SF1", "a converting scale never hands its input back unchanged", floor=5)
+def sf1(ctx, R):
+    """Linear, Polynomial, RTD, Thermistor, Thermocouple, Table, Strain, Add and Subtract scales compute new values in the working type.
+    A `scale` method of one of them that can return the very array it was given (an identity short cut for slope 1 / intercept 0,
+    for an empty input, ...) returns data in the raw type - the declared dtype is wrong for that read and integer arithmetic of a
+    following Add/Subtract wraps - and aliases the raw data.  Decided on the method's results in normal form: no result is the bare
+    data parameter.  NoOpScaling (AdvancedAPI) is the one scale whose formula is the identity."""
+    from .sym import Sym
+    from .sem import leaves
+    prog = ctx.prog
+    smod = prog.module("scaling")
+    n = 0
+    for ci in sorted(prog.classes.values(), key=lambda c: c.qual):
+        if ci.module is not smod or ci.name in ("NoOpScaling", "MultiScaling", "DaqMxScalerScaling"):
+            continue
+        f = ci.methods.get("scale")
+        if f is None or len([p_ for p_ in f.params if p_ != "self"]) < 1:
+            continue
+        v = Sym(prog, f, ci).function_value()
+        if v[0] in ("opaque", "loop", "mutated"):
+            R.unrecognised("%s::result" % f.qual, f.where(), "results of the method are not in normal form")
+            continue
+        n += 1
+        ps = [("param", p_) for p_ in f.params if p_ != "self"]
+        back = [(conds, leaf) for conds, leaf in leaves(v) if leaf in ps]
+        key = "%s::never the input itself" % f.qual
+        if back:
+            from .sym import show
+            R.violation(key, f.where(), "`%s` is returned unchanged%s: the result keeps the raw dtype instead of the working type of the scale (channel.dtype "
+                        "declares the latter; an Add/Subtract fed by it computes in the raw integer type) and shares storage with the raw data" % (
+                            back[0][1][1], (" when " + "; ".join(show(c)[:50] for c in back[0][0])) if back[0][0] else ""))
+        else:
+            R.ok(key, f.where(), "every result is computed from the input, none is the input array itself")
+    if n == 0:
+        R.unrecognised("scaling::scale methods", smod.relpath, "no scale method of a converting scale class was recognised")
+
 
 @rule("OW3", "scaling never modifies the data it is given (alias / in-place analysis of every scale method)", floor=14)
 def ow3(ctx, R):
